@@ -35,6 +35,7 @@ pub fn apply(seed: &[u8], m: &Mutation) -> Vec<u8> {
 
 /// Every mutation of `seed`, simplest first. No-ops (mutation equal to the seed) are skipped.
 /// `align`: offsets of 32-bit fields are multiples of 4 counted from `align_base` (0 for all binary formats here; text formats get every offset).
+#[allow(dead_code)]
 pub fn all(seed: &[u8], every_u32_offset: bool, mut f: impl FnMut(Mutation)) {
     f(Mutation::None);
     for n in 0..seed.len() {
